@@ -88,7 +88,9 @@ def units():
           ('assign__%(S)s_rE', ALLP + ['C10']), ('append__%(S)s', ALLP), ('append__%(S)s_rE', ALLP + ['C10']), ('append__pE_pE', ALLP),
           ('at__%(S)s', ['C01', 'C08']), ('at__%(S)s_c', ['C01', 'C08', 'C20']), ('op_index__%(S)s_c', ['C01', 'C20']), ('data__v_c', ['C01', 'C20']),
           ('end__v_c', ['C01', 'C20']), ('front__v_c', ['C01', 'C20']), ('back__v_c', ['C01', 'C20']), ('empty__v_c', ['C01', 'C20']),
-          ('op_eq__r%(V)s_c', ['C01', 'C20']), ('op_lt__r%(V)s_c', ['C01', 'C20'])]
+          ('op_eq__r%(V)s_c', ['C01', 'C20']), ('op_lt__r%(V)s_c', ['C01', 'C20']),
+          ('assign__pE_pE', ALLP), ('insert__pE_pE_pE', ALLP), ('pop_back_val__v', ['C01', 'C02', 'C05', 'C07', 'C09']),
+          ('op_index__%(S)s', ['C01']), ('data__v', ['C01']), ('end__v', ['C01']), ('front__v', ['C01']), ('back__v', ['C01']), ('cend__v_c', ['C01', 'C20'])]
     # operations defined one level below VectorImpl (DynamicVector / StaticVector)
     DPAT = {'small': 'DynamicVector_E_A_%s_t', 'std': 'DynamicVector_E_A_%s_f', 'static': 'StaticVector_E_%s_Exc'}
     L2D = [('emplace_back__rE', ALLP + ['C10'], 1), ('emplace_back__rrE', ALLP, 2), ('emplace_back__rri32', ALLP, 3),
@@ -102,7 +104,7 @@ def units():
                     pp = [p for p in props if not (fl == 'static' and p in ('C06', 'C18')) and not (fl == 'std' and p == 'C05')]
                     m2 = m % {'S': sz, 'V': vpat % sz}
                     add('op.%s.%s.%s.%s' % (m2.split('__')[0] + '_' + m2.split('__')[1][:12], fl, et, sz), (vpat % sz) + '__' + m2, pp, fnum, bpat % sz, sz, elem,
-                        throws_reachable=not m2.startswith(('op_eq', 'op_lt')))
+                        throws_reachable=not m2.startswith(('op_eq', 'op_lt', 'pop_back_val', 'op_index', 'data', 'end', 'front', 'back', 'cend')))
                 for m, props, ek in L2D:
                     pp = [p for p in props if not (fl == 'static' and p in ('C06', 'C18')) and not (fl == 'std' and p == 'C05')]
                     m2 = m % {'S': sz}
